@@ -479,6 +479,116 @@ impl LruManager {
     }
 }
 
+/// Verification instrumentation (cargo feature `verif-hooks`, off by default).
+#[cfg(feature = "verif-hooks")]
+impl LruManager {
+    /// Walk the slot array, the key map, the free list and the intrusive list
+    /// and report the first structural inconsistency found.
+    ///
+    /// Read-only; intended to be called by an external harness at quiescent
+    /// points.
+    pub fn verif_check_invariants(&self) -> std::result::Result<(), String> {
+        let n = self.entries.len();
+        if self.key_map.len() > self.capacity as usize && n <= self.capacity as usize {
+            return Err(format!(
+                "key_map holds {} entries, capacity is {}",
+                self.key_map.len(),
+                self.capacity
+            ));
+        }
+        // key map -> slots
+        let mut mapped = vec![false; n];
+        for (key, &idx) in &self.key_map {
+            let Some(entry) = self.entries.get(idx as usize) else {
+                return Err(format!("key_map index {idx} out of range ({n} slots)"));
+            };
+            if entry.ekey != *key {
+                return Err(format!("slot {idx} holds a different key than key_map says"));
+            }
+            if mapped[idx as usize] {
+                return Err(format!("slot {idx} mapped by two keys"));
+            }
+            mapped[idx as usize] = true;
+        }
+        // free list
+        let mut free = vec![false; n];
+        for &idx in &self.free_list {
+            if idx as usize >= n {
+                return Err(format!("free_list index {idx} out of range ({n} slots)"));
+            }
+            if free[idx as usize] {
+                return Err(format!("slot {idx} is on the free list twice"));
+            }
+            if mapped[idx as usize] {
+                return Err(format!("slot {idx} is both mapped and free"));
+            }
+            free[idx as usize] = true;
+        }
+        // slot accounting: every slot is either mapped or free
+        if self.key_map.len() + self.free_list.len() != n {
+            return Err(format!(
+                "slot leak: {} mapped + {} free != {} slots",
+                self.key_map.len(),
+                self.free_list.len(),
+                n
+            ));
+        }
+        // list walk tail -> head
+        let mut seen = vec![false; n];
+        let mut count = 0usize;
+        let mut prev = LRU_SENTINEL;
+        let mut idx = self.header.lru_tail;
+        while idx != LRU_SENTINEL {
+            let Some(entry) = self.entries.get(idx as usize) else {
+                return Err(format!("list index {idx} out of range ({n} slots)"));
+            };
+            if seen[idx as usize] {
+                return Err(format!("list revisits slot {idx} (cycle)"));
+            }
+            seen[idx as usize] = true;
+            if !mapped[idx as usize] {
+                return Err(format!("list contains unmapped slot {idx}"));
+            }
+            if entry.prev != prev {
+                return Err(format!(
+                    "slot {idx}: prev is {:#x}, walk came from {:#x}",
+                    entry.prev, prev
+                ));
+            }
+            prev = idx;
+            idx = entry.next;
+            count += 1;
+        }
+        if self.header.mru_head != prev {
+            return Err(format!(
+                "mru_head is {:#x}, walk ended at {:#x}",
+                self.header.mru_head, prev
+            ));
+        }
+        if count != self.key_map.len() {
+            return Err(format!(
+                "list has {count} entries, key_map has {}",
+                self.key_map.len()
+            ));
+        }
+        Ok(())
+    }
+
+    /// Keys in list order (LRU tail first), independent of `is_active`.
+    pub fn verif_list_keys(&self) -> Vec<[u8; 9]> {
+        let mut keys = Vec::new();
+        let mut idx = self.header.lru_tail;
+        while idx != LRU_SENTINEL && keys.len() <= self.entries.len() {
+            let Some(entry) = self.entries.get(idx as usize) else {
+                break;
+            };
+            keys.push(entry.ekey);
+            idx = entry.next;
+        }
+        keys
+    }
+}
+
 /// Statistics from a single LRU maintenance cycle.
 #[derive(Debug, Default)]
 pub struct LruCycleStats {
